@@ -1648,6 +1648,27 @@ def search_C11(rng, deadline, broken):
     from oracle import moon_almanac as M
     fromord = datetime.date.fromordinal
     prev = None
+    # the phase asked for in other spellings: by keyword, and with the date left out while a
+    # running clock passes 00:00 UTC (today = the date at the moment of the call; still in [0, 28))
+    import corr_norm
+    for o in [730120 + 29 * k + j for k in range(0, 40) for j in (0, 7)]:
+        d = fromord(o)
+        try:
+            a, b = moon.phase(d), moon.phase(date=d)
+        except Exception as exc:  # noqa: BLE001
+            return {"clause": "phase(date=…) raised %r" % (exc,), "date": str(d), "spelling": "keyword"}
+        if a != b:
+            return {"clause": "phase(%s) = %r but phase(date=%s) = %r" % (d, a, d, b), "date": str(d),
+                    "spelling": "keyword"}
+        now = datetime.datetime(d.year, d.month, d.day, 23, 59, 59, tzinfo=datetime.timezone.utc)
+        with corr_norm.FrozenClock(now, datetime.timedelta(seconds=3)):
+            try:
+                c = moon.phase()
+            except Exception as exc:  # noqa: BLE001
+                return {"clause": "phase() raised %r" % (exc,), "date": str(d), "spelling": "omitted"}
+        if c != a:
+            return {"clause": "phase() while the clock runs from %s gives %r; the phase of that date is %r" % (
+                now.isoformat(), c, a), "date": str(d), "spelling": "omitted"}
     # exhaustive: range and daily advance for every date
     for o in range(1, 3652060):
         try:
@@ -1681,6 +1702,20 @@ def search_C11(rng, deadline, broken):
 def replay_C11(fi):
     import astral.moon as moon
     d = datetime.date.fromisoformat(fi["date"])
+    if fi.get("spelling") == "keyword":
+        try:
+            return moon.phase(d) == moon.phase(date=d)
+        except Exception:  # noqa: BLE001
+            return False
+    if fi.get("spelling") == "omitted":
+        import corr_norm
+        now = datetime.datetime(d.year, d.month, d.day, 23, 59, 59, tzinfo=datetime.timezone.utc)
+        with corr_norm.FrozenClock(now, datetime.timedelta(seconds=3)):
+            try:
+                c = moon.phase()
+            except Exception:  # noqa: BLE001
+                return False
+        return c == moon.phase(d)
     p = moon.phase(d)
     if not (0.0 <= p < 28.0):
         return False
@@ -2337,6 +2372,21 @@ def _c19_location(seed):
     from astral.location import Location
     rng = random.Random(seed)
     tzs = ["Europe/London", "Asia/Tokyo", "Pacific/Apia", "America/New_York", "Asia/Kolkata"]
+    # a Location answers for the LocationInfo it was made from, however it was passed, and
+    # assigning to one Location leaves that LocationInfo and its other Locations alone
+    inf0 = LocationInfo("n0", "r0", rng.choice(tzs), rng.uniform(-60, 60), rng.uniform(-170, 170))
+    was = (inf0.latitude, inf0.longitude, inf0.timezone)
+    la, lb, lk = Location(inf0), Location(inf0), Location(info=inf0)
+    if (lk.latitude, lk.longitude, lk.timezone) != was:
+        return {"clause": "Location(info=%r) reports latitude/longitude/zone %r" % (
+            inf0, (lk.latitude, lk.longitude, lk.timezone)), "seed": seed, "history": []}
+    la.longitude = was[1] / 2.0 + 1.0
+    la.latitude = was[0] / 2.0 + 1.0
+    if (inf0.latitude, inf0.longitude, inf0.timezone) != was or (lb.latitude, lb.longitude) != was[:2]:
+        return {"clause": "after assigning latitude/longitude on one Location, the LocationInfo it was made from "
+                          "reads %r and a second Location made from it %r (both were %r)" % (
+                              (inf0.latitude, inf0.longitude), (lb.latitude, lb.longitude), was[:2]),
+                "seed": seed, "history": []}
     loc = Location(LocationInfo("n", "r", rng.choice(tzs), rng.uniform(-60, 60), rng.uniform(-180, 180)))
     hist = []
     # the arguments of the calls to be compared are fixed first; every method is then called
